@@ -6,6 +6,7 @@ import (
 	"bytes"
 	"encoding/json"
 	"fmt"
+	"io"
 	"io/ioutil"
 	"math/rand"
 	"path/filepath"
@@ -23,6 +24,7 @@ type c08Case struct {
 	Kind string `json:"kind"`
 	Lay  struct {
 		Pre     int    `json:"pre"`
+		X       int64  `json:"x"`
 		Lead    string `json:"lead"`
 		Hdr     int    `json:"hdr"`
 		L       int    `json:"L"`
@@ -35,6 +37,7 @@ type c08Case struct {
 		N       int    `json:"N"`
 	} `json:"lay"`
 	Op struct {
+		Tail  int `json:"tail"`
 		Start int `json:"start"`
 		Size  int `json:"size"`
 		A     int `json:"a"`
@@ -95,6 +98,10 @@ func c08Replay(args []string) error {
 			emdB = mkBox("mdat")
 		} else if c.Lay.Emd == "after" {
 			emdA = mkBox("mdat")
+		}
+		if c.Kind == "big" {
+			c08Big(rep, &c, string(line))
+			return nil
 		}
 		large := c.Lay.Hdr == 16
 		if c.Kind == "range" {
@@ -332,4 +339,122 @@ func minI64(a, b int64) int64 {
 		return a
 	}
 	return b
+}
+
+// sparseFile: prefix bytes, a gap of gapLen bytes whose byte at gap offset o is payloadByte(o mod 2^20), suffix bytes - a
+// file of more than 4 GiB that needs no memory
+type sparseFile struct {
+	prefix, suffix []byte
+	gapLen         int64
+	pos            int64
+}
+
+func (f *sparseFile) size() int64 { return int64(len(f.prefix)) + f.gapLen + int64(len(f.suffix)) }
+
+func (f *sparseFile) Seek(off int64, whence int) (int64, error) {
+	switch whence {
+	case io.SeekStart:
+		f.pos = off
+	case io.SeekCurrent:
+		f.pos += off
+	case io.SeekEnd:
+		f.pos = f.size() + off
+	}
+	if f.pos < 0 {
+		return 0, fmt.Errorf("negative position")
+	}
+	return f.pos, nil
+}
+
+func (f *sparseFile) Read(p []byte) (int, error) {
+	if f.pos >= f.size() {
+		return 0, io.EOF
+	}
+	n := 0
+	for n < len(p) && f.pos < f.size() {
+		switch {
+		case f.pos < int64(len(f.prefix)):
+			p[n] = f.prefix[f.pos]
+		case f.pos < int64(len(f.prefix))+f.gapLen:
+			p[n] = payloadByte(int((f.pos - int64(len(f.prefix))) & 0xfffff))
+		default:
+			p[n] = f.suffix[f.pos-int64(len(f.prefix))-f.gapLen]
+		}
+		n++
+		f.pos++
+		if n >= 1<<16 {
+			break
+		}
+	}
+	return n, nil
+}
+
+// c08Big: an mdat of 2^32 + x payload bytes, lazily decoded from a sparse file. What the in-memory mode would report is known
+// without building it: box size = header + payload, header form as the spec says, the next box right behind the payload.
+func c08Big(rep *Report, c *c08Case, raw string) {
+	L := int64(1)<<32 + c.Lay.X
+	var want int
+	_ = json.Unmarshal(c.Want, &want)
+	ftyp := mFtyp("isom", 0x200, "isom")
+	stbl := [][]byte{mStsd(), mStts([]runEntry{{1, 1}}), mStsc([]stscEntry{{1, 1, 1}}), mStsz(0, []int{7}), mStco([]int64{int64(len(ftyp)) + 400})}
+	moov := mkBox("moov", mMvhd(1000, 1, 2), mTrak(1, 1000, 1, true, nil, stbl...))
+	var hdr []byte
+	if want == 8 {
+		hdr = cat(be32(int64(8)+L), []byte("mdat"))
+	} else {
+		hdr = cat(be32(1), []byte("mdat"), be64(16+L))
+	}
+	var post []byte
+	if c.Lay.Post > 0 {
+		post = mkBox("free", zeros(c.Lay.Post-8))
+	}
+	sf := &sparseFile{prefix: cat(ftyp, moov, hdr), gapLen: L, suffix: post}
+	cs := J{"payload": fmt.Sprintf("2^32%+d", c.Lay.X), "header_bytes": want, "post": c.Lay.Post}
+	defer func() {
+		if r := recover(); r != nil {
+			rep.Violation("big/panic", fmt.Sprintf("lazy decoding / reading of a > 4 GiB mdat panics: %v", r), cs)
+		}
+	}()
+	f, err := mp4.DecodeFile(sf, mp4.WithDecodeMode(mp4.DecModeLazyMdat))
+	if err != nil {
+		rep.Violation("big/decode", "lazy decode of a well-formed file with a large mdat fails: "+err.Error(), cs)
+		return
+	}
+	mdatStart := int64(len(ftyp) + len(moov))
+	if f.Mdat == nil || int64(f.Mdat.StartPos) != mdatStart {
+		rep.Violation("big/mdat-start", "mdat start position wrong", cs)
+		return
+	}
+	if int64(f.Mdat.Size()) != int64(want)+L || int(f.Mdat.HeaderSize()) != want {
+		rep.Violation("big/mdat-size", fmt.Sprintf("lazily decoded mdat reports size %d / header %d, the file has %d / %d", f.Mdat.Size(), f.Mdat.HeaderSize(), int64(want)+L, want), cs)
+	}
+	if c.Lay.Post > 0 {
+		last := f.Children[len(f.Children)-1]
+		found := false
+		for _, ch := range f.Children {
+			if ch.Type() == "free" {
+				found = true
+			}
+		}
+		if !found || last.Type() != "free" {
+			rep.Violation("big/following-box", "the box behind the large mdat is not found where the file has it", cs)
+		}
+	}
+	// the last bytes of the payload, read through the lazy box
+	tail := int64(c.Op.Tail)
+	start := mdatStart + int64(want) + L - tail
+	got, err := f.Mdat.ReadData(start, tail, sf)
+	ok := err == nil && int64(len(got)) == tail
+	for i := int64(0); ok && i < tail; i++ {
+		ok = got[i] == payloadByte(int((L-tail+i)&0xfffff))
+	}
+	if !ok {
+		rep.Violation("big/readdata", fmt.Sprintf("ReadData of the last %d payload bytes fails or returns other bytes (%v)", tail, err), cs)
+	}
+	// a lazy box encodes to exactly its header
+	var w bytes.Buffer
+	if err := f.Mdat.Encode(&w); err != nil || !bytes.Equal(w.Bytes(), hdr) {
+		rep.Violation("big/header", fmt.Sprintf("lazy mdat encodes to %x (%v), the file has %x", w.Bytes(), err, hdr), cs)
+	}
+	rep.Count(raw, true, nil)
 }
